@@ -143,10 +143,12 @@ def build_block(src, selector, rx, opts, sections, emitter):
             add_insert(lps[n - 1][1], "\n" + val.rstrip("\n") + "\n")
         elif key.strip() == "hint start":
             add_insert(0, val.rstrip("\n") + "\n")
-        elif key.startswith("hint afterloop ") or key.startswith("hint endloop ") or key.startswith("hint startloop "):
-            hm = re.match(r"hint (afterloop|endloop|startloop) /(.*)/\s*(\d+)?$", key)
+        elif re.match(r"hint\??\s+(afterloop|endloop|startloop) ", key):
+            hm = re.match(r"hint\??\s+(afterloop|endloop|startloop) /(.*)/\s*(\d+)?$", key)
             kk = int(hm.group(3) or 1)
             hits = [lp for lp in lps if re.search(hm.group(2), m_text[lp[0]:lp[1]])]
+            if len(hits) < kk and key.startswith("hint?"):
+                continue
             if len(hits) < kk:
                 raise X.ExtractError(f"{selector} block: loop /{hm.group(2)}/ #{kk} not found (lost anchor)")
             cb_ = match_close(m_text, hits[kk - 1][1])
